@@ -868,6 +868,8 @@ def project1(v, e):
             if name == '0':
                 return ('bin', v[1][:-len('WithOverflow')], v[2], v[3])
             return ('overflow', v[1][:-len('WithOverflow')], v[2], v[3])
+        if v[0] == 'closure' and name.isdigit() and int(name) < len(v[2]):
+            return v[2][int(name)]           # a captured variable of an inlined closure
         if v[0] == 'agg':
             if name in v[4]:
                 return v[3][v[4].index(name)]
